@@ -63,7 +63,9 @@ CLAIMS = {
                      "'Unexpected exception' violation and does not raise; (3) EVERY bundled rule, lint and fix mode, on every slot "
                      "combination of four construct families parsed by the real parser (CASE incl. no-WHEN and nested forms; CAST / "
                      "CONVERT / :: incl. 1- and 3-argument calls under 4 casting styles; CTE followed by comments / brackets / set "
-                     "operators; SELECT targets x table forms x joins x tails) in ansi (thorough: + postgres, tsql, bigquery, snowflake): "
+                     "operators; SELECT targets x table forms x joins x tails, in mysql also with identifier-less references such as @v "
+                     "and USING joins) in ansi and mysql (thorough: + postgres, tsql, bigquery, snowflake, oracle with their own special "
+                     "references): "
                      "no 'Unexpected exception' violation.",
                 note="Rule bodies are exercised only on the listed construct families; other constructs are outside. F2, F28, F29 fixed."),
     "C06": dict(design_ref="§3 C06", technique=SYM + "; plus z3 Fixedpoint (Datalog) FIRST-set closure over every dialect's live grammar graph",
@@ -105,7 +107,8 @@ CLAIMS = {
                      "(small alphabet, length<=8) without dotted fields that the hack rewrites, and no dotted field (length<=12) that it "
                      "fails to rewrite; every model is replayed against the real templater vs a string.Formatter reference. (3) "
                      "_slice_template tiling as in C07. (4) whole PythonTemplater.process on every <=3 (thorough 4) piece template x contexts: "
-                     "rendered == str.format.",
+                     "rendered == str.format, also when the same templater object rendered another file first whose context defined "
+                     "more names (a name missing from THIS file's context must be an error, not a stale value).",
                 note="Known findings F3, F4 (escaped braces) excluded by pattern; F19 (spec with whitespace) fixed. format_spec mini-language "
                      "and conversions on dotted names are outside."),
     "C10": dict(design_ref="§3 C10/C11/C30", technique=SYM,
@@ -135,7 +138,8 @@ CLAIMS = {
                      "the path arguments; every task/result crosses a real pickle round trip (FluffConfig.__getstate__/__setstate__): "
                      "records, per-directory stats, violation count and exit code equal the serial run's, for 3 warnings "
                      "configurations. Templated: 3 jinja files under nested .sqlfluff files with different templater contexts, all path "
-                     "orders through the real sequential runner and all completion orders through the parallel runner agree.",
+                     "orders through the real sequential runner and all completion orders through the parallel runner agree; one of the files "
+                     "carries its own rule selection (inline exclude_rules), which the worker route must honour.",
                 note="Narrow: OS scheduling, real worker processes and fix-mode writes are outside."),
     "C25": dict(design_ref="§3 C25", technique=SYM + " (choices solver-forked; a REAL temp tree is built per explored path)",
                 text="Real paths_from_path/_iter_files_in_path/_check_ignore_specs/_iter_config_files on a 3-level tree with a "
@@ -162,7 +166,8 @@ CLAIMS = {
                      "once) the winner is the highest-precedence layer; an inline directive wins for that file only; mutating one "
                      "file's config never changes a sibling's, a cousin's or the root config. Inline isolation: 7 directive kinds "
                      "(core, indentation, layout, rules:<rule>:<option>, templater) x 6 routes (parse_string, lint_string, simple API, "
-                     "lint_paths, child config, copy) x 0..2 earlier decorated files leave the shared configuration mapping and a later "
+                     "lint_paths, child config, copy, one lint_paths run over both files, the same with two worker threads) x 0..2 earlier "
+                     "decorated files leave the shared configuration mapping and a later "
                      "undecorated file's violations unchanged. nested_combine over 3 dicts: later wins, "
                      "sections merge, outputs share no mutable object with inputs.",
                 note="toml/pyproject files, path-valued settings and plugin defaults are outside."),
@@ -255,14 +260,18 @@ CLAIMS = {
                      "iter_indices_of_newlines + get_line_pos_of_char_pos (source and templated tables) and infer_next_position equal "
                      "the reference (1 + newlines before offset, offset - last newline); also with one non-LF line-break character; and on "
                      "one real-constructed TemplatedFile whose source and rendered texts have independent newline layouts an arbitrary "
-                     "earlier lookup (any offset, either text) does not change the next lookup.",
+                     "earlier lookup (any offset, either text) does not change the next lookup. PositionMarker.source_position / "
+                     "templated_position over the same two-layout file report the line/column of the marker's source / rendered offset "
+                     "wherever its working position has been moved.",
                 note="Text abstracted to length + newline positions (the only observations these functions make)."),
     "C33": dict(design_ref="§3 C33", technique=SYM,
                 text="Real deduplicate_in_source_space + source_signature over N<=3 (thorough 4) violations with symbolic line/col, code, "
                      "description, fix text and source fix: output sorted by (line, col), no two equal signatures, every input signature kept. "
                      "Call site: real Linter.lint_parsed on a real ParsedString with or without a root variant, 2 (thorough 3) violations "
                      "placed by fork among templating / per-variant parse / root-variant lint / alternate-variant lint results: the "
-                     "LintedFile's violations are sorted and unique.",
+                     "LintedFile's violations are sorted and unique. What is shown: the CLI human listing and the API list with "
+                     "--warn-unused-ignores (unused noqa before/after a violation, inside a jinja loop, a second unused noqa) are in source "
+                     "order without repeats.",
                 note="Violation objects are real SQLLintError/SQLParseError with duck-typed rule/segment/fix stubs."),
     "C32": dict(design_ref="§3 C32", technique=SYM + " (operation sequence solver-forked; real files; fresh-subprocess baseline)",
                 text="Narrow: every sequence of 2 (thorough 3) operations (lint / parse / render / lint the whole directory in one run) over "
